@@ -19,6 +19,7 @@
    All hold for EVERY configuration, jar, URL, parent, login, chain [rs] of any length, and every request index. *)
 From Coq Require Import List NArith Bool String.
 From Wpull Require Import Lib.Hex Model.HttpReq Spec.HttpWire Proofs.HttpReqProofs Proofs.HttpReqInv Proofs.HttpReadProofs.
+From Wpull Require Import Model.CookiePolicy Spec.CookieDomain Proofs.CookiePolicyProofs.
 Import ListNotations.
 Open Scope N_scope.
 
@@ -82,6 +83,65 @@ Theorem C16_no_cross_host_state :
                                  /\ forall a b a' b', referrer_of (with_userinfo p a b a' b') = v).
 Proof. exact no_cross_host_state. Qed.
 Print Assumptions C16_no_cross_host_state.
+
+(* ------------------------------------------------------------------ *)
+(* WHICH cookies the jar may hand out for a URL (the jar itself is an oracle above).  wpull's own policy code
+   (wpull/cookie.py: DeFactoCookiePolicy.set_ok_domain / return_ok_domain -> cookie_domain_ok, model
+   Model/CookiePolicy.v) is a filter on top of http.cookiejar's DefaultCookiePolicy, whose verdicts std1 / std2 are
+   arbitrary here.  A cookie accepted from a response of host A and returned for a request to host B satisfies
+   RFC 6265 domain matching (Spec/CookieDomain.v may_travel): with a Domain attribute d both hosts domain-match d
+   (identical, or suffix at a label boundary and not an IP address), and a single-label d is both hosts; without
+   one, A and B are filed under the same name by the jar. *)
+Theorem C16_cookie_policy_domain :
+  forall std1 std2 dom spec A B,
+    wp_set_ok_domain std1 dom spec A = true ->
+    wp_return_ok_domain std2 dom spec B = true ->
+    may_travel (str_lower A) (str_lower B) dom spec.
+Proof. exact policy_sound. Qed.
+Print Assumptions C16_cookie_policy_domain.
+
+(* host-only cookies go back to the host that set them (http.cookiejar identifies a dot-less h with h.local) *)
+Theorem C16_cookie_host_only :
+  forall std1 std2 dom A B,
+    wp_set_ok_domain std1 dom false A = true ->
+    wp_return_ok_domain std2 dom false B = true ->
+    str_lower A = str_lower B
+    \/ str_lower A = str_lower B ++ s_dot_local \/ str_lower B = str_lower A ++ s_dot_local.
+Proof. exact host_only_same_host. Qed.
+Print Assumptions C16_cookie_host_only.
+
+(* Domain=test, Domain=local, Domain=intranetname: never to another host *)
+Theorem C16_cookie_single_label :
+  forall std1 std2 dom A B,
+    wp_set_ok_domain std1 dom true A = true ->
+    wp_return_ok_domain std2 dom true B = true ->
+    single_label (strip_dot (str_lower dom)) ->
+    str_lower A = str_lower B.
+Proof. exact single_label_same_host. Qed.
+Print Assumptions C16_cookie_single_label.
+
+(* an IP address is only ever sent cookies whose domain is that address *)
+Theorem C16_cookie_ip_exact :
+  forall std2 dom B,
+    wp_return_ok_domain std2 dom true B = true ->
+    is_ip_literal (str_lower B) = true ->
+    str_lower B = strip_dot (str_lower dom).
+Proof. exact ip_host_exact. Qed.
+Print Assumptions C16_cookie_ip_exact.
+
+Open Scope string_scope.
+Example C16_cookie_nonvacuous :
+  (* a parent-domain cookie travels between siblings ... *)
+  wp_set_ok_domain true (lit ".x.test") true (lit "a.x.test") = true
+  /\ wp_return_ok_domain true (lit ".x.test") true (lit "b.x.test") = true
+  (* ... a TLD, the jar's "local", an IP suffix and a host-only cookie for a subdomain do not *)
+  /\ wp_set_ok_domain true (lit ".test") true (lit "a.x.test") = false
+  /\ wp_set_ok_domain true (lit ".local") true (lit "alpha") = false
+  /\ wp_set_ok_domain true (lit ".1.2.3") true (lit "10.1.2.3") = false
+  /\ wp_return_ok_domain true (lit "a.x.test") false (lit "s.a.x.test") = false
+  /\ wp_return_ok_domain true (lit "a.x.test") false (lit "A.X.test") = true.
+Proof. vm_compute. repeat split. Qed.
+Close Scope string_scope.
 
 (* ------------------------------------------------------------------ *)
 (* Non-vacuity: a fetch of http://u:p@a.example/x?y found on http://pu:pp@a.example/dir/, with a cookie for
